@@ -179,4 +179,33 @@ theorem redirectSearch_hint (u k v : Str) (h : redirectSearch u = some (k, v)) :
   · exact Or.inl e
   · exact Or.inr e
 
+/-! ## generic helpers for the recursion -/
+
+/-- `n`-fold application -/
+def iterStep (f : Str → Str) : Nat → Str → Str
+  | 0, u => u
+  | n + 1, u => iterStep f n (f u)
+
+/-- induction on the length of a string -/
+theorem length_induction {P : Str → Prop}
+    (h : ∀ u, (∀ v, v.length < u.length → P v) → P u) : ∀ u, P u := by
+  have aux : ∀ n, ∀ u : Str, u.length < n → P u := by
+    intro n
+    induction n with
+    | zero => intro u hu; exact absurd hu (Nat.not_lt_zero _)
+    | succ n ih =>
+      intro u hu
+      apply h
+      intro v hv
+      exact ih v (by omega)
+  intro u
+  exact aux (u.length + 1) u (Nat.lt_succ_self _)
+
+theorem iterStep_succ_apply (f : Str → Str) (n : Nat) (u : Str) :
+    iterStep f (n + 1) u = f (iterStep f n u) := by
+  induction n generalizing u with
+  | zero => rfl
+  | succ n ih => exact ih (f u)
+
+
 end Ural
